@@ -44,9 +44,11 @@ def absr(x):
 
 
 class Module:
-    def __init__(self, path):
-        src = open(path, encoding="utf-8").read()
-        self.funcs = {n.name: n for n in ast.parse(src).body if isinstance(n, ast.FunctionDef)}
+    def __init__(self, path, extra_paths=()):
+        self.funcs = {}
+        for pth in list(extra_paths) + [path]:
+            src = open(pth, encoding="utf-8").read()
+            self.funcs.update({n.name: n for n in ast.parse(src).body if isinstance(n, ast.FunctionDef)})
         self.fresh = itertools.count()
         self.stub_log = set()
 
@@ -145,11 +147,32 @@ class Ev:
             args = [self.ev(a) for a in n.args]
             ts = tuple(("T", vy_type_of(a)) for a in args)
             return ts[0] if len(ts) == 1 else ("TT", ts)
-        if f in ("sympy.nsimplify", "vyxalify", "sympy.sympify", "sympy.Rational", "sympy.floor", "int", "abs"):
+        if f in ("sympy.nsimplify", "sympy.sympify", "sympy.Rational", "sympy.floor", "int", "abs") or (f == "vyxalify" and "vyxalify" not in self.mod.funcs):
             return self.stub(f, [self.num(self.ev(a)) for a in n.args], kw)
-        if f in self.mod.funcs and f in ARITH:
+        if f == "isinstance":
+            return ("B", self.isinstance(self.num(self.ev(n.args[0])), n.args[1]))
+        if f == "is_sympy":
+            a = self.num(self.ev(n.args[0]))
+            return ("B", z3.BoolVal(a.tag == RAT))
+        if f in self.mod.funcs:
+            fn = self.mod.funcs[f]
+            params = [x.arg for x in fn.args.args]
             args = [self.ev(a) for a in n.args]
-            return apply_fn(self.mod, f, args[0], args[1], self.side)
+            env = {"ctx": ("CTX",)}
+            for pn, av in zip(params, args):
+                env[pn] = av
+            for k in n.keywords:
+                if k.arg != "ctx":
+                    env[k.arg] = self.ev(k.value)
+            sub = Ev(self.mod, env)
+            sub.depth = getattr(self, "depth", 0) + 1
+            if sub.depth > 6:
+                raise Unsupported("call depth")
+            r = run_body(self.mod, sub, fn.body)
+            self.side.extend(sub.side)
+            if r is None:
+                raise Unsupported("no return reached in " + f)
+            return r
         if isinstance(n.func, ast.Call) and isinstance(n.func.func, ast.Attribute) and n.func.func.attr == "get" and not n.args:
             d = self.ev(n.func.func.value)
             key = self.ev(n.func.args[0])
@@ -161,6 +184,24 @@ class Ev:
                     return self.ev(lam.body if isinstance(lam, ast.Lambda) else lam)
             return ("FALLBACK", ast.unparse(default))
         raise Unsupported("call " + f)
+
+    def isinstance(self, a, tnode):
+        names = [ast.unparse(e) for e in tnode.elts] if isinstance(tnode, ast.Tuple) else [ast.unparse(tnode)]
+        conds = []
+        for nm in names:
+            if nm in ("sympy.core.numbers.Integer", "sympy.Integer"):
+                conds.append(z3.IsInt(a.val) if a.tag == RAT else z3.BoolVal(False))
+            elif nm in ("sympy.Rational", "sympy.core.numbers.Rational", "sympy.Basic", "sympy.Expr", "sympy.Number"):
+                conds.append(z3.BoolVal(a.tag == RAT))
+            elif nm == "int":
+                conds.append(z3.BoolVal(a.tag == PYINT))
+            elif nm in ("float", "complex"):
+                conds.append(z3.BoolVal(a.tag == FLOAT))
+            elif nm in ("bool", "str", "list", "LazyList", "types.FunctionType", "tuple"):
+                conds.append(z3.BoolVal(False))
+            else:
+                raise Unsupported("isinstance against " + nm)
+        return z3.Or(*conds) if conds else z3.BoolVal(False)
 
     def nearby(self, a):
         r = z3.Real("ns%d" % next(self.mod.fresh))
@@ -196,7 +237,7 @@ class Ev:
             if a.tag == PYINT:
                 return a
             x = a.real()
-            return V(PYINT, z3.If(x >= 0, floor_real(x), -floor_real(-x)))
+            return V(PYINT, z3.If(z3.IsInt(x), z3.ToInt(x), z3.If(x >= 0, floor_real(x), -floor_real(-x))))
         if f == "abs":
             return V(a.tag, z3.If(a.val >= 0, a.val, -a.val))
         raise Unsupported("stub " + f)
@@ -238,7 +279,7 @@ ARITH = ("add", "subtract", "multiply", "divide", "modulo", "integer_divide")
 
 
 def run_body(mod, ev, stmts):
-    for st in stmts:
+    for i, st in enumerate(stmts):
         if isinstance(st, ast.Expr) and isinstance(st.value, ast.Constant):
             continue
         if isinstance(st, ast.Assign) and len(st.targets) == 1 and isinstance(st.targets[0], ast.Name):
@@ -248,12 +289,22 @@ def run_body(mod, ev, stmts):
             return ev.ev(st.value)
         if isinstance(st, ast.If):
             c = ev.ev(st.test)
-            if c[0] != "B" or not z3.is_true(z3.simplify(c[1])) and not z3.is_false(z3.simplify(c[1])):
-                raise Unsupported("if statement on a symbolic condition")
-            r = run_body(mod, ev, st.body if z3.is_true(z3.simplify(c[1])) else st.orelse)
-            if r is not None:
-                return r
-            continue
+            if c[0] != "B":
+                raise Unsupported("if statement on a non-boolean")
+            simp = z3.simplify(c[1])
+            rest = list(stmts[i + 1 :])
+            if z3.is_true(simp):
+                return run_body(mod, ev, list(st.body) + rest)
+            if z3.is_false(simp):
+                return run_body(mod, ev, list(st.orelse) + rest)
+            e1, e2 = Ev(mod, dict(ev.env)), Ev(mod, dict(ev.env))
+            e1.depth = e2.depth = getattr(ev, "depth", 0)
+            r1 = run_body(mod, e1, list(st.body) + rest)
+            r2 = run_body(mod, e2, list(st.orelse) + rest)
+            ev.side.extend(e1.side + e2.side)
+            if r1 is None or r2 is None:
+                raise Unsupported("a branch of a symbolic if does not return")
+            return ("ITE", c[1], r1, r2)
         raise Unsupported("statement " + type(st).__name__)
     return None
 
